@@ -153,7 +153,7 @@ def shared(ctx):
     # 'every block produced from an honestly built sealed state is accepted by its parent': the proposer validates one transaction at a time, the parent the whole batch;
     # the two must apply the same rules — for the stake lock this is C13.R3 (in-state and in-batch locks cover the same outputs)
     from rules.props import c13
-    core.import_rules(ctx, [c13.r3_lock_gate], "X13")
+    core.import_rules(ctx, [c13.r3_lock_gate, c13.r3_new_stakes_flow], "X13")
     # 'succeeds exactly when all of the block's transactions are valid against that state': the batch validates every member against the pre-block state, so two
     # members spending one coin are told apart only by the batch-wide duplicate-input gate (C02.R3) and inputs created inside the block by C02.R2
     from rules.props import c02
